@@ -485,33 +485,44 @@ Section ConcProofs.
     - assert (H : i <> j) by congruence. specialize (IH i j t x Fl H Ei Ej). lia.
   Qed.
 
+  (* the step that starts the teardown, seen from the state before it *)
+  Lemma flip_alone s tid t r b rest :
+    Pre s -> c_torn s = false -> nth_error (c_threads s) tid = Some t -> t_cont t = MDropReg r b :: rest ->
+    reg_of t r <> None -> c_rc s = 1 ->
+    rest = [] /\ owned t = 1 /\
+    (forall j x, j <> tid -> nth_error (c_threads s) j = Some x -> owned x = 0 /\ t_cont x = []).
+  Proof.
+    intros P NT Ht Hc Hr E1. destruct (P NT) as (E & F).
+    assert (W : Forall (fun t => weight t >= 0) (c_threads s)).
+    { eapply Forall_impl; [|exact F]. intros x (Hnn & _ & _). unfold weight. assert (A := owned_nonneg x). assert (B := NN_debt _ Hnn). lia. }
+    assert (Ot : owned t >= 1) by (destruct (reg_of t r) eqn:Er; [eapply reg_of_owned; eauto|congruence]).
+    destruct (nth_error_Forall _ _ _ _ F Ht) as (Hnn & Hda & _).
+    assert (Dt : debt (t_cont t) >= 0) by (apply NN_debt; exact Hnn).
+    rewrite <- sumT_weight in E.
+    assert (Others : forall j x, j <> tid -> nth_error (c_threads s) j = Some x -> weight x = 0 /\ weight t = 1).
+    { intros j x Hj Ex. assert (A := sumT_two weight _ tid j t x W (not_eq_sym Hj) Ht Ex).
+      assert (B := nth_error_Forall _ _ _ _ W Ex). cbn beta in B. unfold weight in *. lia. }
+    split; [|split].
+    - rewrite Hc in Hda. assert (Ed := Hda (MDropReg r b) (or_introl eq_refl) eq_refl). injection Ed as ->. reflexivity.
+    - assert (A := sumT_ge_one weight _ tid t W Ht). unfold weight in *. lia.
+    - intros j x Hj Ex. destruct (Others j x Hj Ex) as (Wx & _).
+      destruct (nth_error_Forall _ _ _ _ F Ex) as (Hnx & _ & Hbusy).
+      assert (A := owned_nonneg x). assert (B := NN_debt _ Hnx). unfold weight in Wx.
+      split; [lia|]. destruct (t_cont x) as [|mm rr] eqn:Ecx; [reflexivity|].
+      assert (owned x >= 1) by (apply Hbusy; discriminate). lia.
+  Qed.
+
   Theorem teardown_alone progs s want s' tid evs :
     Reach progs s -> c_torn s = false -> cstep g s want = Some (s', tid, evs) -> c_torn s' = true ->
     c_rc s = 1 /\
     (exists t, nth_error (c_threads s) tid = Some t /\ owned t = 1) /\
     (forall j x, j <> tid -> nth_error (c_threads s) j = Some x -> owned x = 0 /\ t_cont x = []).
   Proof.
-    intros R NT C T'. assert (P := reach_Pre _ _ R). destruct (P NT) as (E & F).
+    intros R NT C T'. assert (P := reach_Pre _ _ R).
     destruct (cstep_inv _ _ _ _ _ C) as (t & m & rest & Ht & Hc & -> & _).
     unfold normalize in T'. cbn [c_torn] in T'.
     destruct (exec_torn_flip s tid t m rest NT T') as (r & b & -> & E1 & Hr).
-    assert (W : Forall (fun t => weight t >= 0) (c_threads s)).
-    { eapply Forall_impl; [|exact F]. intros x (Hnn & _ & _). unfold weight. assert (A := owned_nonneg x). assert (B := NN_debt _ Hnn). lia. }
-    assert (Ot : owned t >= 1) by (destruct (reg_of t r) eqn:Er; [eapply reg_of_owned; eauto|congruence]).
-    assert (Dt : debt (t_cont t) >= 0).
-    { apply NN_debt. exact (proj1 (nth_error_Forall _ _ _ _ F Ht)). }
-    rewrite <- sumT_weight in E. split; [exact E1|].
-    assert (Others : forall j x, j <> tid -> nth_error (c_threads s) j = Some x -> weight x = 0 /\ weight t = 1).
-    { intros j x Hj Ex. assert (A := sumT_two weight _ tid j t x W (not_eq_sym Hj) Ht Ex).
-      assert (B := nth_error_Forall _ _ _ _ W Ex). cbn beta in B. unfold weight in *. lia. }
-    split.
-    - exists t. split; [exact Ht|].
-      assert (A := sumT_ge_one weight _ tid t W Ht).
-      unfold weight in *. lia.
-    - intros j x Hj Ex. destruct (Others j x Hj Ex) as (Wx & _).
-      destruct (nth_error_Forall _ _ _ _ F Ex) as (Hnn & _ & Hbusy).
-      assert (A := owned_nonneg x). assert (B := NN_debt _ Hnn). unfold weight in Wx.
-      split; [lia|]. destruct (t_cont x) as [|mm rr] eqn:Ecx; [reflexivity|].
-      assert (owned x >= 1) by (apply Hbusy; discriminate). lia.
+    destruct (flip_alone s tid t r b rest P NT Ht Hc Hr E1) as (_ & O1 & Oth).
+    split; [exact E1|]. split; [exists t; auto|exact Oth].
   Qed.
 End ConcProofs.
